@@ -81,6 +81,10 @@ Definition init_st (pp oc : option content) : ostate := Build_ostate [] [] [] pp
 (* a file version as the rules see it: the content together with the configuration in force when it was checked *)
 Definition cfg_key (k : option content) : nat := match k with None => 0 | Some c => S c end.
 Definition enc (c : content) (k : option content) : content := c * 8 + cfg_key k.
+(* a path with no file behind it is still handed to the rules (file-placement judges the path alone): its "version" is the
+   configuration in force - numbers below 8, never the version of an existing file (configuration-file versions have the
+   smallest content ids, so enc c k >= 8 for every other file) *)
+Definition absent_ver (k : option content) : content := cfg_key k.
 Definition view (sticky : bool) (first : option (option content)) (cur : option content) : option content :=
   if sticky then match first with Some k => k | None => cur end else cur.
 Definition first_seen (first : option (option content)) (cur : option content) : option (option content) :=
@@ -137,7 +141,8 @@ Section Orch.
       let '(ig, ic) := if smem "is_ignored" lint_file_guards then cached_ignored (ppats st) (icache st) p else (false, icache st) in
       if ig then (set_icache st ic, [])
       else match fs_get fs p with
-           | None => (checked st (dry_rows st) (dry_aux st) (st_ev st) ic, perfile p None ++ perfile_fp p None)
+           | None => (checked st (dry_rows st) (dry_aux st) (st_ev st) ic,
+                      perfile p (Some (absent_ver (ocfg st))) ++ perfile_fp p (Some (absent_ver (fp_view q st))))
            | Some c => let v := (p, enc c (ocfg st)) in
                        (checked st (dry_rows st ++ [v]) (dry_aux st ++ [v]) (st_ev st ++ [v]) ic,
                         perfile p (Some (enc c (ocfg st))) ++ perfile_fp p (Some (enc c (fp_view q st))))
